@@ -11,6 +11,7 @@ use mpd_client::tag::Tag;
 use super::typed::{self, close, frame_of, gen_ms, gen_name, gen_u64_edge, kv, ms_spell, ms_str, TIMESTAMPS};
 use crate::refmodel::mpdspec;
 use crate::util::acc::Acc;
+use crate::util::itercheck;
 use crate::util::json::J;
 use crate::util::panics;
 use crate::util::rng::{hash_bytes, mix, Rng};
@@ -383,6 +384,7 @@ impl C16 {
         // unchanged `grouped_values()` finds nothing, because MPD answers with its own spelling of the name.)
         let tt = Tag::try_from(t.as_str()).unwrap();
         // plain
+        let seed2 = r.next_u64();
         let n = r.below(8);
         let vals: Vec<String> = (0..n).map(|k| if k == 0 && r.chance(1, 3) { String::new() } else { gen_name(r) }).collect();
         let f: Vec<(String, String)> = vals.iter().map(|v| kv(&t, v)).collect();
@@ -401,8 +403,21 @@ impl C16 {
             if rev != w {
                 return Err("reverse iteration differs".into());
             }
+            // every provided iterator method of the three list iterators against the values the server sent
+            let mut r2 = Rng::keyed(&[seed2, 0x1716]);
+            let to_s = |s: &str| s.to_string();
+            itercheck::forward("List::values()", &mut r2, &|| l.values(), &to_s, &vals)?;
+            itercheck::double_ended("List::values()", &mut r2, &|| l.values(), &to_s, &vals)?;
+            itercheck::exact_size("List::values()", &|| l.values(), &to_s, &vals)?;
+            itercheck::forward("(&List).into_iter()", &mut r2, &|| l.into_iter(), &to_s, &vals)?;
+            itercheck::double_ended("(&List).into_iter()", &mut r2, &|| l.into_iter(), &to_s, &vals)?;
+            let id = |s: String| s;
+            itercheck::forward("List::into_iter()", &mut r2, &|| l.clone().into_iter(), &id, &vals)?;
+            itercheck::double_ended("List::into_iter()", &mut r2, &|| l.clone().into_iter(), &id, &vals)?;
+            itercheck::exact_size("List::into_iter()", &|| l.clone().into_iter(), &id, &vals)?;
             Ok(())
         });
+        cx.acc.inc("list_iterators_checked_against_every_provided_method");
         // grouped with 1-3 grouping tags
         let ng = r.range(1, 3);
         let mut gts: Vec<String> = Vec::new();
@@ -454,6 +469,8 @@ impl C16 {
                     if l.grouped_by() != &arr {
                         return Err("grouped_by() differs from the request".into());
                     }
+                    let mut r2 = Rng::keyed(&[seed2, 0x1717]);
+                    itercheck::forward("List::grouped_values()", &mut r2, &|| l.grouped_values(), &|(v, gs): (&str, [&str; $n])| (v.to_string(), gs.iter().map(|s| s.to_string()).collect::<Vec<String>>()), &want)?;
                     Ok(())
                 });
             }};
